@@ -34,11 +34,6 @@ NUMS = [("-0", "0"), ("0", "0"), ("1.50", "1.5"), ("1e2", "100"), ("-0.0", "0"),
 def obligations(tier):
     q = tier == "quick"
     L = []
-    if os.environ.get("C12_PROBE"):
-        import json
-        a = json.loads(os.environ["C12_PROBE"])
-        L.append(ob("probe", a[0], a[1], a[2:]))
-        return L
     # ---- cmp
     m = 2 if q else 3
     for nx in range(m + 1):
